@@ -60,9 +60,16 @@ func WorkerMain(t *testing.T, engine string, run RunFunc) {
 
 	agg := &Aggregate{Property: prop, Engine: engine, Worker: worker, Stats: NewStats(),
 		Abstract: map[string]int{}, Inconclusive: map[string]int{}, Extra: map[string]interface{}{}}
+	sigCount := map[string]*ViolationReport{}
 	write := func() {
 		if outPath == "" {
 			return
+		}
+		if len(sigCount) > 0 {
+			agg.Violations = agg.Violations[:0]
+			for _, vr := range sigCount {
+				agg.Violations = append(agg.Violations, *vr)
+			}
 		}
 		b, _ := json.Marshal(agg)
 		_ = os.WriteFile(outPath+".tmp", b, 0o644)
@@ -81,7 +88,9 @@ func WorkerMain(t *testing.T, engine string, run RunFunc) {
 		hits := 0
 		var last RunResult
 		for i := 0; i < tries; i++ {
-			last = run(t, rf.Scenario, rf.Tier, ReplayTape(rf.Seed, rf.Tape), true)
+			rtp := ReplayTape(rf.Seed, rf.Tape)
+			rtp.Params = rf.Params
+			last = run(t, rf.Scenario, rf.Tier, rtp, true)
 			if last.Violation != nil && last.Violation.Signature == rf.Signature {
 				hits++
 				break
@@ -104,7 +113,6 @@ func WorkerMain(t *testing.T, engine string, run RunFunc) {
 
 	start := time.Now()
 	seen := map[uint64]bool{}
-	sigCount := map[string]*ViolationReport{}
 	for ri := 0; ri < maxRuns && time.Since(start) < budget; ri++ {
 		seed := Mix(base, uint64(worker), uint64(ri))
 		if os.Getenv("DST_RAW_SEEDS") != "" {
@@ -163,13 +171,30 @@ func WorkerMain(t *testing.T, engine string, run RunFunc) {
 			}
 			vr := &ViolationReport{Signature: sig, Detail: res.Violation.Detail, Seed: seed, Count: 1}
 			sigCount[sig] = vr
-			if !known[res.Violation.Property+" "+sig] && replayDir != "" && len(sigCount) <= 3 {
+			if !known[res.Violation.Property+" "+sig] && replayDir != "" && len(sigCount) <= 3 && claimMinimisation(replayDir, res.Violation.Property, sig) {
 				// minimise and write the replay file
 				orig := res.Tape
 				minRuns := 0
 				var lastGood RunResult = res
+				params := res.Params
+				_ = os.MkdirAll(replayDir, 0o755)
+				rpath := filepath.Join(replayDir, fmt.Sprintf("%s-%d.json", res.Violation.Property, seed))
+				// the unminimised replay first, so that a watchdog kill during
+				// minimisation still leaves a usable file
+				raw := &ReplayFile{Property: res.Violation.Property, Engine: engine, Scenario: scenario, Tier: tier,
+					Seed: seed, Tape: res.Tape, Signature: sig, Detail: res.Violation.Detail, Params: params,
+					OrigTape: len(res.Tape), Trace: tail(res.Trace, 120)}
+				if raw.Write(rpath) == nil {
+					vr.Replay = rpath
+					write()
+				}
+				mk := func(c []uint32) *Tape {
+					tp := ReplayTape(seed, c)
+					tp.Params = params
+					return tp
+				}
 				minTape, n := Minimise(orig, minBudget, func(c []uint32) bool {
-					r := run(t, scenario, tier, ReplayTape(seed, c), false)
+					r := run(t, scenario, tier, mk(c), false)
 					if r.Violation != nil && r.Violation.Signature == sig {
 						lastGood = r
 						return true
@@ -178,22 +203,20 @@ func WorkerMain(t *testing.T, engine string, run RunFunc) {
 				})
 				minRuns = n
 				// final confirmation run with the minimised tape, full trace
-				conf := run(t, scenario, tier, ReplayTape(seed, minTape), true)
+				conf := run(t, scenario, tier, mk(minTape), true)
 				vr.Reproduced = conf.Violation != nil && conf.Violation.Signature == sig
 				if !vr.Reproduced {
 					minTape = orig
 					conf = lastGood
 				}
 				rf := &ReplayFile{Property: res.Violation.Property, Engine: engine, Scenario: scenario, Tier: tier,
-					Seed: seed, Tape: minTape, Signature: sig, Detail: res.Violation.Detail,
+					Seed: seed, Tape: minTape, Signature: sig, Detail: res.Violation.Detail, Params: params,
 					OrigTape: len(orig), MinRuns: minRuns, Trace: tail(conf.Trace, 120)}
 				if conf.Stats != nil {
 					rf.Faults = conf.Stats.Faults
 				}
-				_ = os.MkdirAll(replayDir, 0o755)
-				p := filepath.Join(replayDir, fmt.Sprintf("%s-%d.json", res.Violation.Property, seed))
-				if err := rf.Write(p); err == nil {
-					vr.Replay = p
+				if err := rf.Write(rpath); err == nil {
+					vr.Replay = rpath
 				}
 			}
 		}
@@ -202,11 +225,30 @@ func WorkerMain(t *testing.T, engine string, run RunFunc) {
 			write()
 		}
 	}
-	for _, vr := range sigCount {
-		agg.Violations = append(agg.Violations, *vr)
-	}
 	agg.WallS = time.Since(start).Seconds()
 	write()
+}
+
+// claimMinimisation makes sure that only one worker of a batch spends time
+// minimising a given violation signature (the others only count it).
+func claimMinimisation(dir, prop, sig string) bool {
+	_ = os.MkdirAll(dir, 0o755)
+	h := Mix(uint64(len(sig)), hashString(prop+sig), 7)
+	f, err := os.OpenFile(filepath.Join(dir, fmt.Sprintf(".claim-%s-%016x", prop, h)), os.O_CREATE|os.O_EXCL|os.O_WRONLY, 0o644)
+	if err != nil {
+		return false
+	}
+	f.Close()
+	return true
+}
+
+func hashString(s string) uint64 {
+	var h uint64 = 1469598103934665603
+	for i := 0; i < len(s); i++ {
+		h ^= uint64(s[i])
+		h *= 1099511628211
+	}
+	return h
 }
 
 func firstLine(s string) string {
